@@ -404,7 +404,13 @@ def run(ck):
     cac = ck.func(HS, "HTTPServer.close_all_connections")
     awaited_close = [n for n in q.walk_body(cac.node) if isinstance(n, ast.Await) and isinstance(n.value, ast.Call) and q.call_attr(n.value) == "close"]
     ck.ob("C05.close-order", cac, cac.node, len(awaited_close) >= 1, "close_all_connections awaits conn.close()")
-    loops = [n for n in q.walk_body(cac.node) if isinstance(n, ast.While) and q.dotted(n.test) == "self._connections"]
+    conn_aliases = {"self._connections"}
+    for n in q.walk_body(cac.node):
+        if isinstance(n, ast.Assign) and q.dotted(n.value) == "self._connections":
+            conn_aliases |= {q.dotted(t) for t in n.targets if q.dotted(t)}
+    loops = [n for n in q.walk_body(cac.node) if isinstance(n, ast.While) and q.dotted(n.test) in conn_aliases]
+    if not loops and awaited_close:
+        raise AnalysisError("close_all_connections: the loop around `await conn.close()` is not a `while <connection set>` loop (unknown idiom)")
     ck.ob("C05.close-order", cac, cac.node, len(loops) == 1 and all(any(a is x for x in ast.walk(loops[0])) for a in awaited_close), "the await sits in a loop that runs while self._connections is non-empty")
     sc = ck.func(H1, "HTTP1ServerConnection.close")
     nb = require_before(ck, "C05.close-order", sc, lambda n: n.suspends, node_calls("self.stream.close"), "stream closed before awaiting the serving future")
